@@ -83,7 +83,7 @@ theorem C05_no_sprout_after_true {t t' : T} {ev : Ev} (hs : t.gscSeen = true) (h
     exact ⟨(forall2_length e.demes).symm, e.gscSeenMono hs⟩
   | round ge renv news =>
     obtain ⟨_, _, _, _, hg, _, hcase⟩ := stepRound_effect h
-    rcases hcase with ⟨hd, _, _, _⟩ | ⟨hf, _⟩
+    rcases hcase with ⟨hd, _, _, _, _⟩ | ⟨hf, _⟩
     · exact ⟨by rw [hd], hg hs⟩
     · simp [hs] at hf
 
